@@ -83,6 +83,10 @@ func cmdEngineTraces(args []string) {
 		prog := g.Program()
 		rules, _ := json.Marshal(prog.JS())
 		c := &Case{GRL: prog.GRL(), Parts: prog.Parts(2 + r.Intn(2)), RulesJS: rules, Variant: vs[r.Intn(len(vs))], Profile: p.Name, Listener: 1 + r.Intn(*listeners)}
+		c.Counted = json.RawMessage(`{"k":"none"}`)
+		if p.OneHeavy && g.heavy != nil {
+			c.Counted, _ = json.Marshal(g.heavy.JS())
+		}
 		for _, ru := range prog.Rules {
 			if ru.Removed {
 				c.Removed = append(c.Removed, ru.Name)
